@@ -30,6 +30,10 @@ def view_of(e):
 
 def run(ck, with_order=True):
     prog, cg = ck.prog, ck.cg
+    if with_order:
+        # the trimming of a hunk and the frozen line rest on the context counts the parser stores (C01-R6)
+        from . import c01 as _c01
+        _c01.r6(ck, rule="C03-R5")
     am = ck.anchor("FilePatch::<'a, &'a [u8]>::apply_modify")
     tah = ck.anchor("libpatch::patch::try_apply_hunk")
     if am is None or tah is None:
@@ -266,8 +270,17 @@ def run(ck, with_order=True):
                 if c == 0 and t[1] == 0 and (same_value(x) or same_value(y)):
                     other = y if same_value(x) else x
                     d = st_.get(frozen, S)
-                    if d is not None and d <= -1:
+                    # ... and the other summand is the hunk's *leading* context (the lines in front of the first changed one)
+                    is_prefix = False
+                    if other[0] == "v" and other[1].startswith("L") and other[1][1:].isdigit():
+                        oe = df.operand_expr(fn, {"k": "copy", "pl": {"l": int(other[1][1:])}})
+                        is_prefix = df.mentions(oe, lambda z: df.is_call(z, "::prefix_context")) and not df.mentions(oe, lambda z: df.is_call(z, "::suffix_context"))
+                    if d is not None and d <= -1 and is_prefix:
                         okc = True
+                    elif d is not None and d <= -1:
+                        rel = "the frozen line is compared with the position plus %s, not plus the leading context" % df.show(
+                            df.operand_expr(fn, {"k": "copy", "pl": {"l": int(other[1][1:])}}) if other[1][1:].isdigit() else other, 60)
+                        continue
                     rel = an_.explain(st_, frozen, S)
             cores.append((okc, rel, s))
     an.stmt_probe = probe
